@@ -42,6 +42,7 @@ ChromFirst(t, c) == Min(BinsOf(t, c)) - 1                 \* 0-based id of first
 ChromLast(t, c)  == Max(BinsOf(t, c)) - 1                 \* 0-based id of last bin
 ChromLen(t, c)   == t[ChromLast(t, c) + 1][3]
 ChromLens(t)     == [c \in 0..(NChroms(t) - 1) |-> ChromLen(t, c)]
+ChromLenSeq(t)   == [k \in 1..NChroms(t) |-> ChromLen(t, k - 1)]      \* as a sequence
 \* 0-based id of the bin of chromosome c that contains position pos (0 <= pos < length)
 BinContaining(t, c, pos) ==
   (CHOOSE k \in BinsOf(t, c) : t[k][2] <= pos /\ pos < t[k][3]) - 1
